@@ -105,6 +105,25 @@ def check(ctx) -> Result:
     res.frozen(okc, "R-compose-earlier-then-later", "compress_mode_swaps", cms.site(sw), cms.qualname, "combine(earlier swap, later swap) in the no-conflict branch only", "swap dictionaries are combined in the wrong order or outside the no-conflict branch", construct=src(comb[0]) if comb else "")
     skips = [c for o in sw.orelse for c in ast.walk(o) if isinstance(c, ast.Call) and src(c.func) == "to_skip.append"]
     res.frozen(len(skips) == 1 and src(skips[0].args[0]).replace(" ", "") in ("i+1+j", "i+j+1", "j+i+1", "1+i+j"), "R-merged-swap-skipped", "compress_mode_swaps", cms.site(sw), cms.qualname, "the merged later swap (index i+1+j) is skipped", "the merged swap is not skipped (applied twice) or the wrong component is skipped", construct=src(skips[0]) if skips else "")
+    # consume-once: an index put into to_skip (its swap was merged into an earlier one) must be excluded from every
+    # later scan that can merge again - the outer loop and the inner look-ahead
+    if skips:
+        consumed = src(skips[0].args[0]).replace(" ", "")
+        par = ctx.tree.parents(cms.rel)
+        chain = []
+        p_ = skips[0]
+        while p_ is not None and p_ is not cms.node:
+            p_ = par.get(p_)
+            if isinstance(p_, ast.For) and "circuit_spec" in src(p_.iter):
+                chain.append(p_)
+        for lp in chain:
+            guards = [n for n in lp.body if isinstance(n, ast.If) and any(isinstance(b, ast.Continue) for b in n.body) and isinstance(n.test, ast.Compare) and isinstance(n.test.ops[0], ast.In) and src(n.test.comparators[0]) == "to_skip"]
+            idx = {src(g.test.left).replace(" ", "") for g in guards}
+            is_inner = "circuit_spec[i + 1" in src(lp.iter) or "circuit_spec[i+1" in src(lp.iter).replace(" ", "")
+            want = consumed if is_inner else "i"
+            res.add(want in idx, "M5-merged-swap-consumed-once", f"compress_mode_swaps:for {src(lp.target)}", cms.site(lp), cms.qualname, f"components already merged (index {want} in to_skip) are skipped by this loop",
+                    f"the {'look-ahead' if is_inner else 'outer'} loop does not skip components whose index ({want}) is already in to_skip: a swap that was merged into an earlier swap is merged a second time by a later one, so it is applied twice and U_full changes",
+                    construct=src(lp.iter))
     encl = [l for l in walk_no_nested(cms.node) if isinstance(l, ast.For) and "enumerate(circuit_spec[i + 1:])" in src(l.iter).replace("[i + 1 :]", "[i + 1:]")]
     res.frozen(bool(encl), "R-merged-swap-skipped", "compress_mode_swaps:scan", cms.site(), cms.qualname, "later components are scanned from position i+1", "scan of later components does not start right after the swap", construct="scan")
     # M5: at most one append per input component, none inside the inner scan
